@@ -59,7 +59,7 @@ string mkmsg(int id, int len) {
 }
 
 // callbacks for efun-driven frames
-string cb_script;
+string cb_script; int sort_seq; void sort_op(string s);
 int run_ret_cb(mixed el, string script) { run(script); return 1; }
 int cmp_cb(mixed x, mixed y) { if (cb_script) { string t; t = cb_script; cb_script = 0; run(t); } return x > y ? 1 : (x < y ? -1 : 0); }
 mixed fp_target(string script) { run(script); return 7; }
@@ -512,9 +512,9 @@ void eop(string *a) {
     }
     break;
   case "sort":
-    cb_script = sub(implode(a[1..], " "));
-    r = sort_array(({ 3, 1, 2, 5, 4 }), "cmp_cb", this_object());
-    rec("EFRES sort " + (save_variable(r) == "({1,2,3,4,5,})" ? "ok" : save_variable(r)));
+    // (two lines kept so that the line numbers below stay what stored signatures name)
+    // the sort itself is in sort_op() at the end of the file
+    sort_op(sub(implode(a[1..], " ")));
     break;
   }
 }
@@ -972,4 +972,16 @@ void do_op(string op) {
   default:
     rec("BADOP " + op);
   }
+}
+
+// sort <script>: consecutive sorts take turns between an ascending and a descending comparison function, so a sort nested in
+// the comparison of another one never has the callback of the one around it: a sort that goes on with the wrong callback after
+// an error was caught inside its comparison returns the wrong order
+int cmp_cb_desc(mixed x, mixed y) { if (cb_script) { string t; t = cb_script; cb_script = 0; run(t); } return x < y ? 1 : (x > y ? -1 : 0); }
+void sort_op(string s) {
+  int dir; mixed r;
+  dir = (sort_seq++) & 1;
+  cb_script = s;
+  r = sort_array(({ 3, 1, 2, 5, 4 }), dir ? "cmp_cb_desc" : "cmp_cb", this_object());
+  rec("EFRES sort " + (save_variable(r) == (dir ? "({5,4,3,2,1,})" : "({1,2,3,4,5,})") ? "ok" : save_variable(r)));
 }
